@@ -124,7 +124,9 @@ PROPERTIES = {
     },
     "C08": {
         "runs": {
-            "quick": [H("HarnessC08a", b(K=4, CACHE=0), sample_every=200), H("HarnessC08a", b(K=4, CACHE=2), sample_every=200), H("HarnessC08a", b(K=2, CACHE=1), sample_every=200), H("HarnessC08a", b(N0=3, K=0, CACHE=1), sample_every=200),
+            "quick": [H("HarnessC08a", b(K=4, CACHE=0), sample_every=200), H("HarnessC08a", b(K=4, CACHE=2), sample_every=200), H("HarnessC08a", b(K=2, CACHE=1), sample_every=200), H("HarnessC08a", b(N0=3, K=0, CACHE=1), sample_every=200)] +
+                     # the v1marshaler decode paths: names of re-loaded, unmodified nodes (node.source) when persisted again
+                     [H("HarnessC08a", b(N0=3, K=0, CACHE=c, FMT=f)) for f in (1, 2) for c in (0, 1)] + [H("HarnessC08a", b(K=3, CACHE=0, FMT=1)),
                       # no restart: the old version is re-read through the cache that holds the writer's own node objects, after a delete and an
                       # insert/update by another handle; the base got one insert in the middle (MID), see DESIGN 12.6
                       H("HarnessC08a", b(N0=4, LPAT=10, MID=1, K=0, CACHE=1, WRITERCACHE=1, DELFIRST=1, CONCRETEKEYS=1), sample_every=200)] +
